@@ -407,7 +407,7 @@ class SimpleCorrelator(AbstractCorrelator):
                 deliver_sm.short_message = text
             else:
                 deliver_sm.message_payload = text
-            del self._delivery_segment_store[str(ref_num)]
+            self._delivery_segment_store.pop(str(ref_num), None)  # not stored yet if there is only one segment
             await self._remove_expired()
             return deliver_sm
         self._delivery_segment_store[str(ref_num)] = segment_data
